@@ -188,4 +188,60 @@ example : submit ["B", "A"] [⟨3, "A", 7, 100, 5⟩, ⟨3, "B", 9, 160, 8⟩] [
     .ok [⟨3, "B", 9, 160, 8⟩, ⟨3, "A", 8, 180, 10⟩] := by decide
 example : submit ["B", "A"] [⟨3, "A", 7, 100, 5⟩, ⟨3, "B", 9, 160, 8⟩] [("B", 3, 8)] 180 180 10 30 60 true = .error .tooEarly := by decide
 
+/-! ### admission: what a sender has to check for the handler to accept -/
+
+theorem idxOf_inj {feeds : List String} {a b : String} {i : Nat} (ha : idxOf feeds a = some i) (hb : idxOf feeds b = some i) : a = b := by
+  have h1 := (idxOf_some ha).2
+  have h2 := (idxOf_some hb).2
+  rw [h1] at h2
+  exact Option.some.inj h2
+
+/-- the per-price rule of the handler, read on the re-indexed previous list -/
+def Admissible (feeds : List String) (acc : List VP) (blockTime cooldown : Int) (m : String × Nat × Nat) : Prop :=
+  ∃ i, idxOf feeds m.1 = some i ∧ ((acc.getD i VP.zero).status = 0 ∨ blockTime ≥ (acc.getD i VP.zero).ts + cooldown)
+
+theorem applyMsg_ok (feeds : List String) (blockTime height cooldown : Int) (msg : List (String × Nat × Nat)) (acc : List VP)
+    (hnd : (msg.map (·.1)).Nodup) (hall : ∀ m ∈ msg, Admissible feeds acc blockTime cooldown m) :
+    ∃ out, applyMsg feeds blockTime height cooldown acc msg = .ok out := by
+  induction msg generalizing acc with
+  | nil => exact ⟨acc, rfl⟩
+  | cons m rest ih =>
+    obtain ⟨sid, st, price⟩ := m
+    simp only [List.map_cons, List.nodup_cons] at hnd
+    obtain ⟨i, hi, hadm⟩ := hall (sid, st, price) (List.mem_cons_self ..)
+    simp only [applyMsg, hi]
+    have hno : ¬ ((acc.getD i VP.zero).status ≠ 0 ∧ blockTime < (acc.getD i VP.zero).ts + cooldown) := by
+      intro ⟨a, b⟩
+      rcases hadm with h | h
+      · exact a h
+      · omega
+    rw [if_neg hno]
+    apply ih _ hnd.2
+    intro m' hm'
+    obtain ⟨j, hj, hadm'⟩ := hall m' (List.mem_cons_of_mem _ hm')
+    refine ⟨j, hj, ?_⟩
+    -- the entry of another signal is not the one just written
+    have hne : i ≠ j := by
+      intro e
+      subst e
+      have he : sid = m'.1 := idxOf_inj hi hj
+      apply hnd.1
+      rw [he]
+      exact List.mem_map.mpr ⟨m', hm', rfl⟩
+    have hget : (acc.set i ⟨st, sid, price, blockTime, height⟩).getD j VP.zero = acc.getD j VP.zero := by
+      simp only [List.getD_eq_getElem?_getD, List.getElem?_set_ne hne]
+    rw [hget]; exact hadm'
+
+/-- PROPERTY (what a sender must check): a message of distinct current signals, none of them inside its cool-down on the
+    stored list, from a validator that is required to send, with a timestamp within the allowed discrepancy, is accepted -/
+theorem admissible_message_accepted (feeds : List String) (prev : List VP) (msg : List (String × Nat × Nat)) (msgTs blockTime height cooldown disc : Int)
+    (hsz : msg.length ≤ feeds.length) (hts : absI (msgTs - blockTime) ≤ disc) (hnd : (msg.map (·.1)).Nodup)
+    (hall : ∀ m ∈ msg, Admissible feeds (fill feeds prev) blockTime cooldown m) :
+    ∃ out, submit feeds prev msg msgTs blockTime height cooldown disc true = .ok out := by
+  unfold submit
+  rw [if_neg (by omega)]
+  simp only [Bool.not_true, Bool.false_eq_true, if_false]
+  rw [if_neg (by omega)]
+  exact applyMsg_ok feeds blockTime height cooldown msg _ hnd hall
+
 end BandVerif.FeedsSubmit
